@@ -31,6 +31,9 @@ enum Op {
     Search,
     SearchBigK,
     SearchCancelled,
+    /// queries of the wrong length (dim-1, dim+1, dim+16 = one more full SIMD block, 5*dim+3):
+    /// nothing below the index's own check looks at the query length again
+    SearchWrongLen,
 }
 
 fn serde_json_lite(v: &[String]) -> String {
@@ -44,7 +47,7 @@ fn main() {
     let dims: Vec<usize> = if cancel_only { vec![] } else if thorough { vec![1, 3, 8, 17, 130] } else { vec![1, 3, 17, 130] };
     let ms: Vec<usize> = if thorough { vec![4, 5, 16, 64] } else { vec![5, 16] };
     let caps: Vec<usize> = if thorough { vec![1, 2, 8, 4096] } else { vec![1, 2, 8] };
-    let ops = [Op::Add, Op::AddDupVec, Op::AddDupId, Op::Search, Op::SearchBigK, Op::SearchCancelled];
+    let ops = [Op::Add, Op::AddDupVec, Op::AddDupId, Op::Search, Op::SearchBigK, Op::SearchCancelled, Op::SearchWrongLen];
     let mut sequences = 0u64;
     let mut calls = 0u64;
     let mut configs = 0u64;
@@ -92,6 +95,19 @@ fn main() {
                                 Op::SearchCancelled => {
                                     let flag = AtomicBool::new(true);
                                     let _ = idx.knn_search_with_ef_cancel(&vecf(dim, 8), 10, Some(10), Some(&flag));
+                                }
+                                Op::SearchWrongLen => {
+                                    for l in [dim.saturating_sub(1), dim + 1, dim + 16, 5 * dim + 3] {
+                                        // well formed apart from its length (unit norm over the full
+                                        // length, so the cosine normalisation check lets it through)
+                                        let mut q = vec![0.0f32; l];
+                                        if l > 0 {
+                                            q[0] = 1.0;
+                                        }
+                                        // (a panic here is a verdict too: with debug assertions on, the
+                                        // kernels' length precondition fires before the over-read)
+                                        let _ = idx.knn_search(&q, 3);
+                                    }
                                 }
                             }
                         }
